@@ -31,6 +31,10 @@ KEYWORDS = {"if", "else", "for", "while", "do", "switch", "case", "default", "br
 # callee -> {argument position: "W" | "RW"}; every other argument is only read.
 CALLEE_EFFECTS = {
     "kabsch_sander": {7: "RW", 8: "RW"},          # store_energies keeps the best two: reads what is there
+    # asa_frame(frame, n_atoms, radii, sphere_points, n_sphere_points, neighbor_indices, centered_sphere_points, mask, areas):
+    # the two work buffers are filled before they are read (proved for the buffer-level model MD.Sasa.LowLevel:
+    # asa_frame_ll_ignores_work_buffers); areas is accumulated into (areas[i]++, areas[i] *= c): read-modify-write
+    "asa_frame": {5: "W", 6: "W", 8: "RW"},
     "calculate_beta_sheets": {4: "RW"},
     "calculate_alpha_helices": {7: "RW"},
     "ks_assign_hydrogens": {3: "W"},              # every non-skipped residue's entry is stored before it is read
@@ -562,6 +566,16 @@ def _apply_calls(text, res, known, perframe):
 
 
 # ------------------------------------------------------------------------------------------ entry points
+FILL_LOOP_RE = re.compile(r"for\s*\(\s*(?:int|size_t|unsigned)\s+(\w+)\s*=\s*0\s*;\s*\1\s*<\s*([\w\*\s]+?)\s*;\s*(?:\1\s*\+\+|\+\+\s*\1)\s*\)\s*"
+                          r"\{\s*(\w+)\s*\[\s*\1\s*\]\s*=\s*(-?[\d.]+f?)\s*;\s*\}")
+
+
+def rewrite_fill_loops(body):
+    """`for (int k = 0; k < N; k++) { buf[k] = CONST; }` overwrites buf[0..N) without reading it: the same effect as
+    std::fill_n(buf, N, CONST).  (That N covers everything read later is not checked: ranges/strides are outside the scanner.)"""
+    return FILL_LOOP_RE.sub(lambda m: "std::fill_n(%s, %s, %s);" % (m.group(3), m.group(2), m.group(4)), body)
+
+
 def scan_loop(src, function, bound=("n_frames",), defines=(), perframe_extra=()):
     """The frame loop `for (LV = 0; LV < n_frames; LV++)` of `function`."""
     code = preprocess(strip_comments(src), defines)
@@ -582,7 +596,7 @@ def scan_loop(src, function, bound=("n_frames",), defines=(), perframe_extra=())
     if not am:
         raise ScanError("frame loop of %s has no block" % function)
     b0 = p1 + 1 + am.end() - 1
-    loop_body = body[b0:match_close(body, b0) + 1]
+    loop_body = rewrite_fill_loops(body[b0:match_close(body, b0) + 1])
     pre = body[1:m.start()]
     outer = set()
     for kind, t in flatten("{" + re.sub(r"[{}]", ";", pre) + "}"):
